@@ -102,6 +102,9 @@ def route_grammars(R):
                 # a template that invokes its parameter with an empty argument list, given a rule
                 R.Rule('PK', R.Seq(R.Call(R.Ref('q'), []), R.Str('!')), params=['q']),
                 R.Rule('PKU', R.Choice(R.Call(R.Ref('PK'), [R.Ref('X')]), R.Ref('X'))),
+                # two parameters whose declared order is not their sorted order, passed positionally
+                R.Rule('T2', R.Seq(R.Ref('tag'), R.Str(':'), R.Ref('body')), params=['tag', 'body']),
+                R.Rule('T2U', R.Call(R.Ref('T2'), [R.Str('t'), R.Ref('X')])),
                 R.Rule('X', R.Regex('b+'))]
     G.append(('templates', templates, {}))
 
@@ -137,7 +140,15 @@ def route_grammars(R):
         inner = R.Seq(R.Ref('v'), R.Str('w'))
         for i in range(24):
             inner = R.Seq(inner)
+        def nest(x):
+            for i in range(24):
+                x = R.Seq(x)
+            return x
         return [R.Rule('start', e),
+                # the same deep text where X is the rule and where X is a parameter: each gets a helper
+                # of its own (the second one is handed the parameter)
+                R.Rule('DW', nest(R.Seq(R.Ref('X'), R.Str(';')))),
+                R.Rule('DE', nest(R.Seq(R.Ref('X'), R.Str(';'))), params=['X']),
                 R.Rule('D', R.Let('v', R.Ref('X'), inner)),
                 R.Rule('T', R.Right(R.Ref('p'), R.Str('!')), params=['p']),
                 R.Rule('X', R.Regex('b+')),
@@ -739,6 +750,28 @@ def local_shadowing(mod, bad, stats):
                 bad('LOCAL-shadow', f'{mod.label}: in {fname} the name {s2[0][5:]} is bound locally (parameter, let '
                                     f'or field) but the reference to it is emitted as the grammar rule '
                                     f'{ast.unparse(callee)}: the argument / bound value is ignored')
+        # the same across a split: a helper function this one delegates to (yield from helper(...)) may
+        # refer to a rule named like one of the bound names only if it was handed that name itself
+        tops = functions_top(mod.tree)
+        seen_h, work = set(), [fn]
+        while work:
+            cur = work.pop()
+            for n in ast.walk(cur):
+                if isinstance(n, ast.YieldFrom) and isinstance(n.value, ast.Call) and isinstance(n.value.func, ast.Name) \
+                        and n.value.func.id.startswith(helper_prefix()) and n.value.func.id in tops \
+                        and n.value.func.id not in seen_h:
+                    seen_h.add(n.value.func.id)
+                    h = tops[n.value.func.id]
+                    work.append(h)
+                    hparams = set(positional_params(h))
+                    for callee, pos, y in requests_in(h):
+                        s2 = strip_ctx(callee)
+                        if s2 and s2[0].startswith('_try_') and s2[0][5:] in bound and s2[0][5:] not in hparams \
+                                and s2[1] in ('bare', 'ctx'):
+                            bad('LOCAL-shadow', f'{mod.label}: {fname} binds the name {s2[0][5:]} and delegates to '
+                                                f'{h.name}, which is not handed that name and requests the grammar rule '
+                                                f'{ast.unparse(callee)} instead: inside the split-off part the bound '
+                                                f'value is ignored')
         # arguments built from a local name must pass the local, not the rule
         for n in ast.walk(fn):
             if isinstance(n, ast.Call) and isinstance(n.func, ast.Name) and n.func.id == '_ParseFunction' \
@@ -1438,6 +1471,31 @@ def argument_captures(m, bad, stats):
                                 f'this invocation')
 
 
+def parameter_order(m, bad, stats):
+    """positional arguments are emitted in the order written at the call; the function that receives
+    them takes its parameters in the order declared by the rule or class (after the convention
+    prefix) - not in any other order"""
+    body = getattr(m, 'body', None)
+    if not body:
+        return
+    pre = prefix_params(m.uses_context)
+    for top in body:
+        if not isinstance(top, M.Obj) or top.cls.name not in ('Rule', 'Class'):
+            continue
+        params = top.d.get('params')
+        if not params or not top.d.get('name'):
+            continue
+        fn = functions_top(m.tree).get(impl(top.d['name']))
+        if fn is None:
+            continue
+        got = positional_params(fn)
+        stats['parameter_lists'] = stats.get('parameter_lists', 0) + 1
+        if got[:len(pre)] == list(pre) and got[len(pre):] != list(params):
+            bad('CONV-param-order', f'{m.label}: {fn.name} takes {got[len(pre):]} after the convention prefix; '
+                                    f'{top.d["name"]} declares {list(params)}: positional arguments are bound to '
+                                    f'other parameters than the corresponding ones')
+
+
 def temp_allocation_unique(m, bad, stats):
     """Every temporary the builder hands out while a module is emitted ends up in a function of its
     own or under a name of its own: if a name was handed out k times it must be stored in at least
@@ -1506,6 +1564,7 @@ def run(rep, pid, rules, label_filter=None, always=()):
         free_names(m, bad, stats)
         temp_allocation_unique(m, bad, stats)
         argument_captures(m, bad, stats)
+        parameter_order(m, bad, stats)
     ignore_distribution(R, bad, stats)
     start_prefix_and_ignored_rule(R, mods, bad, stats)
     route_ignored_sets(R, bad, stats)
